@@ -363,17 +363,21 @@ def shouldClose (s : State) : Bool :=
 /-- the `if pa.shouldClose() { pa.parent.closePathIfIdle(pa) }` epilogue of an arm -/
 def closeCheck (w : W) : W := if shouldClose w.s then emit .closeIfIdle w else w
 
+/-- epilogue of `path.run`: close the source (static handler: `Close` = `Stop`; publisher: `Close()`) -/
+def closeSource (s0 : State) (w : W) : W :=
+  match s0.source with
+  | some .static =>
+    if s0.conf.sourceOnDemand = false ∨ s0.odSrc ≠ .initial then srcStop w else w
+  | some (.pub p) => emit (.pubClosed p) w
+  | _ => w
+
 /-- `ctx.Done` arm + the epilogue of `path.run` -/
 def doClose (w0 : W) : W :=
   let w := emit .removePath w0
   let w := upd (fun s => { s with tSrcReady := false, tSrcClose := false, tPubReady := false, tPubClose := false }) w
   let w := failHolds .terminated w
-  -- (the conditions below read fields that the statements before them do not touch)
-  let w := match w0.s.source with
-    | some .static =>
-      if w0.s.conf.sourceOnDemand = false ∨ w0.s.odSrc ≠ .initial then srcStop w else w
-    | some (.pub p) => emit (.pubClosed p) w
-    | _ => w
+  -- (the conditions below read fields of the entry state that the statements before them do not touch)
+  let w := closeSource w0.s w
   let w := if w0.s.hkDemand then emit (.hook .demand false) (upd (fun s => { s with hkDemand := false }) w) else w
   let w := if w0.s.stream.isSome then setNotAvailable w else w
   upd (fun s => { s with closed := true, srcSub := none }) w
